@@ -523,3 +523,94 @@ func TestReplay_CreateScopeOverlappingProviderClose(t *testing.T) {
 		}
 	}
 }
+
+type rpBlocker struct {
+	entered chan struct{}
+	release chan struct{}
+}
+
+func (b *rpBlocker) Close() error { close(b.entered); <-b.release; return nil }
+
+type rpLate struct{ closed int32 }
+
+func (l *rpLate) Close() error { atomic.AddInt32(&l.closed, 1); return nil }
+
+// scope.createScoped#post[a_waiter_overlapping_close_reports_the_disposed_error]: a resolution that WAITS for a construction in progress is a
+// resolution whose construction overlaps Close, like the constructing one: when the scope was closed meanwhile, the instance has been
+// disposed with it (setInstance closes a late instance right away) and the waiter must get the disposed error, not the closed instance.
+func TestReplay_WaiterOverlappingCloseReportsDisposed(t *testing.T) {
+	blocker := &rpBlocker{entered: make(chan struct{}), release: make(chan struct{})}
+	inCtor, finish := make(chan struct{}), make(chan struct{})
+	c := NewCollection()
+	c.AddScoped(func() *rpBlocker { return blocker })
+	c.AddScoped(func() *rpLate {
+		close(inCtor)
+		<-finish
+		return &rpLate{}
+	})
+	p, err := c.Build()
+	if err != nil {
+		t.Fatal(err)
+	}
+	sc, _ := p.CreateScope(context.Background())
+	if _, err := Resolve[*rpBlocker](sc); err != nil {
+		t.Fatal(err)
+	}
+	type res struct {
+		v   *rpLate
+		err error
+	}
+	r1, r2 := make(chan res, 1), make(chan res, 1)
+	go func() { v, err := Resolve[*rpLate](sc); r1 <- res{v, err} }() // constructs
+	<-inCtor
+	go func() { v, err := Resolve[*rpLate](sc); r2 <- res{v, err} }() // waits
+	time.Sleep(20 * time.Millisecond)
+	closed := make(chan struct{})
+	go func() { sc.Close(); close(closed) }()
+	<-blocker.entered // Close has set disposed and drained the list, and is now stuck in the first instance's Close
+	close(finish)     // the construction ends while the scope is closing
+	a, b := <-r1, <-r2
+	close(blocker.release)
+	<-closed
+	for i, r := range []res{a, b} {
+		if r.err == nil && r.v != nil && atomic.LoadInt32(&r.v.closed) != 0 {
+			t.Errorf("REPLAY-CONFIRMED scope.createScoped#post[a_waiter_overlapping_close_reports_the_disposed_error]: resolution %d (0 constructs, 1 waits) was handed an instance that is already disposed (closed %d times) with a nil error", i, atomic.LoadInt32(&r.v.closed))
+		}
+		if r.err != nil && !errors.Is(r.err, ErrScopeDisposed) {
+			t.Errorf("REPLAY-CONFIRMED scope.createScoped#post[a_waiter_overlapping_close_reports_the_disposed_error]: resolution %d: unexpected error %v", i, r.err)
+		}
+	}
+	p.Close()
+}
+
+// scope.runInitializers#post[each_initializer_runs_exactly_once]: a scope initializer (a scoped function that returns nothing) that another
+// initializer depends on through its marker was run by that resolution and then once more by the initializer loop.
+func TestReplay_InitializerConsumedByAnotherRunsOnce(t *testing.T) {
+	type second struct {
+		In
+		Marker struct{} `name:"second"`
+	}
+	var first, sec int32
+	c := NewCollection()
+	if err := c.AddScoped(func(in second) { atomic.AddInt32(&first, 1) }); err != nil {
+		t.Skip("registration form not accepted: ", err)
+	}
+	if err := c.AddScoped(func() { atomic.AddInt32(&sec, 1) }, Name("second")); err != nil {
+		t.Skip("registration form not accepted: ", err)
+	}
+	p, err := c.Build()
+	if err != nil {
+		t.Skip("build: ", err)
+	}
+	defer p.Close()
+	atomic.StoreInt32(&first, 0)
+	atomic.StoreInt32(&sec, 0)
+	sc, err := p.CreateScope(context.Background())
+	if err != nil {
+		t.Fatal(err)
+	}
+	defer sc.Close()
+	if f, s := atomic.LoadInt32(&first), atomic.LoadInt32(&sec); f != 1 || s != 1 {
+		t.Errorf("REPLAY-CONFIRMED scope.runInitializers#post[each_initializer_runs_exactly_once]: creating one scope ran the initializers first=%d second=%d times, want 1 and 1", f, s)
+	}
+}
